@@ -12,6 +12,8 @@ for line in open(V + '/properties.jsonl'):
         p = json.loads(line)
         props[p['id']] = p
 claimed = [c['property_id'] for c in json.load(open(V + '/MANIFEST.json'))['checks']]
+if os.environ.get('ONLY'):
+    claimed = [c for c in claimed if c in os.environ['ONLY'].split(',')]
 os.makedirs(RD, exist_ok=True)
 for P in claimed:
     wt = '%s/%s' % (RD, P)
